@@ -324,6 +324,8 @@ impl Iterator for Lexer {
                         if !Self::is_symbol_char(next) {
                             break;
                         }
+                    } else {
+                        break;
                     }
                     self.consume_char();
                 }
@@ -487,6 +489,8 @@ impl Iterator for Lexer {
                         if !Self::is_symbol_item(next) {
                             break;
                         }
+                    } else {
+                        break;
                     }
                     self.consume_char();
                 }
